@@ -196,7 +196,7 @@ enum Expect {
     Update(String, u64),
 }
 
-fn case_layers(bytes: &[u8], _s: &[u8], ctx: &mut Ctx) -> Result<(), Fail> {
+pub fn case_layers(bytes: &[u8], _s: &[u8], ctx: &mut Ctx) -> Result<(), Fail> {
     let mut src = Source::new(bytes);
     let case = decode(&mut src);
     ctx.case(&case);
